@@ -6,7 +6,7 @@ import sys
 import threading
 
 sys.path.insert(0, os.path.dirname(os.path.abspath(__file__)))
-from core import Check, run_check  # noqa: E402
+from core import Check, run_check, PY  # noqa: E402
 import env  # noqa: E402
 import progs  # noqa: E402
 import runimpl  # noqa: E402
@@ -78,7 +78,7 @@ def classify_fault(message):
     return 'unknown'
 
 
-def compile_text(text):
+def compile_text(text, in_thread=True):
     """-> (outcome, detail, job) with outcome accept | reject | raised | silent-reject | bad-message"""
     from bardolph.controller.script_job import ScriptJob
     job = ScriptJob()
@@ -89,11 +89,14 @@ def compile_text(text):
             box['program'] = job.load_string(text)
         except BaseException as ex:  # noqa
             box['ex'] = ex
-    t = threading.Thread(target=work, daemon=True)
-    t.start()
-    t.join(5.0)
-    if t.is_alive():
-        return 'hang', 'the compiler did not finish within 5 s', job
+    if in_thread:
+        t = threading.Thread(target=work, daemon=True)
+        t.start()
+        t.join(5.0)
+        if t.is_alive():
+            return 'hang', 'the compiler did not finish within 5 s', job
+    else:
+        work()
     if 'ex' in box:
         ex = box['ex']
         return 'raised', '{}: {}'.format(type(ex).__name__, str(ex)[:100]), job
@@ -108,6 +111,92 @@ def compile_text(text):
     if not any(re.match(r'Line \d+: ', ln) for ln in lines):
         return 'bad-message', errors.strip()[:120], job
     return 'reject', errors, job
+
+
+PUMPS = ['\\a', '\\"', '\\\\', 'a', '1', '.', '1.', ':', '0:', '"', ' ', '-', '- ', '*:', '{', '[', '(', '#', '_',
+         'é', '( ', '[round ', 'not ', 'if {1>0} ', 'repeat begin ', 'begin ', '{1 + ', '1 + ', '"a" and ',
+         'define f ', '{(', '<=', '==', '!', '\t', 'x1 ']
+PUMP_PREFIX = ['', '"', 'define p "', 'time at ', 'hue {', 'print ', 'set ']
+PUMP_SUFFIX = ['', '"', '\\', '!', '1', ' end', '}', '\n on all']
+PUMP_COUNTS = [24, 48, 400, 3000]
+PUMP_LIMIT = 10.0
+
+
+def pump_inputs(rng, thorough):
+    """long repetitions of one short unit between a prefix and a suffix: the inputs on which a
+    backtracking regular expression, a recursive-descent routine or a quadratic loop stops
+    finishing.  All (prefix, unit, count) triples in the thorough tier, a seeded third of them in
+    the quick tier; every unit with every count in both."""
+    out = []
+    for unit in PUMPS:
+        for k in PUMP_COUNTS:
+            for prefix in PUMP_PREFIX:
+                if not thorough and rng.random() > 0.34 and prefix not in ('', '"'):
+                    continue
+                out.append(prefix + unit * k + rng.choice(PUMP_SUFFIX))
+    return out
+
+
+def run_pumps(chk, texts, stats):
+    """compile the pump inputs in a child process, one result line per text, under a deadline"""
+    import json
+    import select
+    import subprocess
+    import tempfile
+    stats['pump_inputs'] = len(texts)
+    stats['pump_outcomes'] = {}
+    with tempfile.NamedTemporaryFile('w', suffix='.json', delete=False) as f:
+        json.dump(texts, f)
+        path = f.name
+    start = 0
+    try:
+        while start < len(texts):
+            proc = subprocess.Popen([PY, '-W', 'ignore', os.path.join(os.path.dirname(os.path.abspath(__file__)),
+                                                                       'c06_worker.py'), path, str(start)],
+                                    stdout=subprocess.PIPE, stderr=subprocess.DEVNULL, text=True)
+            first = True
+            while start < len(texts):
+                # the first answer of a fresh child includes its start-up
+                ready, _, _ = select.select([proc.stdout], [], [], PUMP_LIMIT + (20 if first else 0))
+                first = False
+                line = proc.stdout.readline() if ready else ''
+                if not line:
+                    proc.kill()
+                    proc.wait()
+                    text = texts[start]
+                    chk.count()
+                    if ready:
+                        chk.violation('compiler-dies', 'the compiling process ended without an answer',
+                                      {'text': text[:300], 'length': len(text)})
+                    else:
+                        chk.violation('compiler-hangs', 'the compiler did not finish within {} s on a text of '
+                                      '{} characters'.format(PUMP_LIMIT, len(text)),
+                                      {'text': text[:300], 'length': len(text)})
+                    stats['pump_outcomes']['hang'] = stats['pump_outcomes'].get('hang', 0) + 1
+                    start += 1
+                    break
+                res = json.loads(line)
+                text = texts[res['i']]
+                start = res['i'] + 1
+                chk.count()
+                o = res['outcome']
+                stats['pump_outcomes'][o] = stats['pump_outcomes'].get(o, 0) + 1
+                if o in ('raised', 'silent-reject', 'bad-message', 'accept-with-errors'):
+                    chk.violation({'raised': 'compiler-raises:' + res['detail'].split(':')[0],
+                                   'silent-reject': 'rejection-without-line-numbered-message',
+                                   'bad-message': 'rejection-without-line-numbered-message',
+                                   'accept-with-errors': 'accepted-although-errors-were-reported'}[o],
+                                  '{} on a text of {} characters: {}'.format(o, len(text), res['detail']),
+                                  {'text': text[:300], 'length': len(text)})
+                elif o == 'reject' and res['program_left']:
+                    chk.violation('rejected-text-leaves-a-program', 'program left after rejection',
+                                  {'text': text[:300], 'length': len(text)})
+                else:
+                    chk.nontrivial_case(('p', text))
+            else:
+                proc.wait()
+    finally:
+        os.unlink(path)
 
 
 def execute(job, pop):
@@ -197,6 +286,11 @@ RULES = [
     ('undefined-name', 'assign a {b + 1}'),
     ('undefined-name', 'nosuch 1 2'),
     ('undefined-name', 'print [nosuch 1]'),
+    ('undefined-name', 'assign y y'),
+    ('undefined-name', 'repeat with i from 1 to i begin print i end'),
+    ('undefined-name', 'repeat 3 with i from i to 5 begin print i end'),
+    ('undefined-name', 'repeat 4 with i cycle i begin print i end'),
+    ('undefined-name', 'repeat all as L with i from 1 to i begin print i end'),
     ('nested-define', 'define f begin define g begin print 1 end end'),
     ('missing-end', 'repeat 2 begin hue 5'),
     ('missing-end', 'define f begin hue 5'),
@@ -244,6 +338,44 @@ def _nests():
 NESTS = _nests()
 
 
+def _scope_cases(max_depth=4):
+    """`break` at every position of every nesting (up to four levels) of loop / if / routine
+    definition / matrix block.  The documented rule, stated independently of the compiler:
+    `break` is allowed iff, going outwards from it, a `repeat` is met before any routine
+    definition or matrix block (a routine body and a matrix block start with no loop around
+    them).  A position is `inside the innermost body` or `after the k innermost constructs have
+    been closed`."""
+    import itertools
+    parts = {'loop': 'repeat 2 begin print {n} {body} end',
+             'if': 'if {{1 > 0}} begin print {n} {body} end',
+             'define': 'define fn{n} begin print {n} {body} end',
+             'matrix': 'set "Candle" begin stage row 0 {body} end'}
+    out = []
+    for depth in range(1, max_depth + 1):
+        for combo in itertools.product(parts, repeat=depth):
+            if combo.count('define') > 1 or combo.count('matrix') > 1:
+                continue
+            for closed in range(0, depth):        # how many innermost constructs are closed
+                open_path = combo[:depth - closed]
+                text = 'print 0' if closed else 'break'
+                for level in range(depth - 1, -1, -1):
+                    text = parts[combo[level]].format(n=level + 1, body=text)
+                    if closed and level == depth - closed:
+                        text = text + ' break'
+                legal = False
+                for kind in reversed(open_path):
+                    if kind == 'loop':
+                        legal = True
+                        break
+                    if kind in ('define', 'matrix'):
+                        break
+                out.append((text, 'accept' if legal else 'reject', '/'.join(combo) + '@' + str(closed)))
+    return out
+
+
+SCOPES = _scope_cases()
+
+
 def main():
     chk = Check('C06', extra_modules=['Bardolph.Proofs.Closed', 'Bardolph.Proofs.ClosedGen', 'Bardolph.Proofs.ClosedSplit', 'Bardolph.Proofs.ClosedLoad'])
     chk.lean_phase(sections=set())
@@ -277,6 +409,9 @@ def main():
         inputs.append(('rule:' + name, text))
     for text in NESTS:
         inputs.append(('valid', text))
+    for text, expect, _label in SCOPES:
+        inputs.append(('valid' if expect == 'accept' else 'rule:break-outside-loop', text))
+    stats['scope_cases'] = len(SCOPES)
     stats['rules'] = len(RULES)
     for stream, text in inputs:
         stats['inputs'] += 1
@@ -345,6 +480,7 @@ def main():
                               'accepted, then: ' + ex_detail, {'text': text, 'classification': kind})
         else:
             chk.nontrivial_case(('a', text))
+    run_pumps(chk, pump_inputs(rng, chk.thorough), stats)
     chk.sample({'stream': 'soup', 'text': inputs[0][1]})
     chk.sample({'stream': 'mutant', 'text': inputs[5][1][:200]})
     chk.sample({'stream': 'noise', 'text': repr(inputs[9][1])})
@@ -353,8 +489,10 @@ def main():
         'three input streams through ScriptJob.load_string: token soup over the vocabulary '
         '(keywords, register words, names, literals, punctuation, internal token-class names in '
         'three case variants), mutations of valid generated scripts (token deletion, duplication, '
-        'swap, truncation, substitution) and character noise; plus fixed texts for each documented '
-        'rule.  Violation: an exception, a hang, a rejection without a `Line n:` message, an accepted '
+        'swap, truncation, substitution) and character noise; fixed texts for each documented '
+        'rule; and pump inputs (prefix + one short unit repeated 24 to 3000 times + suffix: deep '
+        'nesting, long runs of escapes, digits, colons, operators) compiled in a child process '
+        'under a 10 s deadline each.  Violation: an exception, a hang, a rejection without a `Line n:` message, an accepted '
         'text that left error messages, a rule-breaking text that is accepted, a rejected text '
         'that left a program, or an accepted text whose execution on three simulated lights ends in '
         'an internal VM fault (data errors such as division by zero are allowed and counted); '
